@@ -53,6 +53,10 @@ def make_graph(spec, fail=()):
         elif kind == "D":
             dsk[name] = DataNode(name, ("lit", name))
             denote[name] = ("lit", name)
+        elif kind in ("N", "Z"):
+            # literal data whose value is None / falsy: still a value, never "missing"
+            denote[name] = None if kind == "N" else 0
+            dsk[name] = DataNode(name, denote[name])
         elif kind == "A":
             dsk[name] = Alias(name, dn[0])
             denote[name] = denote[dn[0]]
@@ -351,12 +355,20 @@ def sweep(tier, seed=0, with_failures=True, time_budget=None):
     cases = runs = 0
     fails = []
     sample = None
-    for n in range(1, nmax + 1):
+    def with_null_literals(n):
         for spec in graph_specs(n, ("T", "D", "A", "C") if n <= 3 else ("T", "D")):
+            yield spec
+            if n <= 3 and any(k == "D" for k, _ in spec):
+                yield tuple(("N" if k == "D" else k, d) for k, d in spec)
+                yield tuple(("Z" if k == "D" else k, d) for k, d in spec)
+
+    for n in range(1, nmax + 1):
+        for spec in with_null_literals(n):
+            null_variant = any(k in ("N", "Z") for k, _ in spec)
             for req in requests_for(n):
-                for nw, cs in configs:
+                for nw, cs in (configs[:2] if null_variant else configs):
                     failsets = [()]
-                    if with_failures:
+                    if with_failures and not null_variant:
                         tnames = [chr(ord("a") + i) for i, (k, _) in enumerate(spec) if k == "T"]
                         failsets += [(t,) for t in tnames]
                     for fl in failsets:
@@ -453,7 +465,7 @@ def sweep(tier, seed=0, with_failures=True, time_budget=None):
     return {
         "function": "dask/local.py:get_async (real code, controlled executor)",
         "bounded": True,
-        "bound": {"max_nodes": nmax, "node_kinds": "task/data/alias", "configs(num_workers,chunksize)": configs, "all completion interleavings up to": 60 if tier == "quick" else 400, "time_budget_s": budget},
+        "bound": {"max_nodes": nmax, "node_kinds": "task/data/alias/external-cache entry; literal data also with the values None and 0", "configs(num_workers,chunksize)": configs, "all completion interleavings up to": 60 if tier == "quick" else 400, "time_budget_s": budget},
         "cases": cases,
         "distinct_nontrivial": cases,
         "executions": runs,
